@@ -1,4 +1,4 @@
-import SnaxVerif.Lemmas.Dma
+import SnaxVerif.Lemmas.DmaStrided
 /-!
 # C05 — DMA lowering of a copy moves every element to its layout position
 
@@ -27,24 +27,25 @@ def TileDividesShape (rs : Rt) (l : Lowered) : Prop := rs.shape = l.nested.map p
 /-- `LcbStepsStatic`: no member of the reported common block has a dynamic step (`None == None` matching — D40). -/
 def LcbStepsStatic (l : Lowered) : Prop := ∀ s ∈ l.lcb, s.step ≠ none
 
-/-- `ByValueDistinct`: two positions of the source layout carry the same Stride value with a static step only if
-both have run-time bound 1 (`stride not in lcb` compares by value — D41). Implied by "the source layout does not self-overlap and has no
-two equal dynamic strides". -/
+/-- `ByValueDistinct` (only needed for the code BEFORE fix F21): two positions of the source layout carry the same
+Stride value with a static step only if both have run-time bound 1 (`stride not in lcb` compared by value — D41). -/
 def ByValueDistinctC (l : Lowered) : Prop := ByValueDistinct l.nested.flatten
 
 /-- `ResolutionConsistent`: the run-time values of `get_bound_ops`/`get_step_ops` agree with the static strides where
-those are static. A property of the model's `resolve`, not of the input; checked on every case by the harness
-(not proved: see obligations notes). -/
-def ResolutionConsistent (el : Nat) (l : Lowered) : Prop := ∀ e ∈ l.nested.flatten, e.consistentB el = true
+those are static. Formerly a hypothesis; now PROVED of the model's `resolve` for every input
+(`resolution_consistent`). -/
+def ResolutionConsistent (el : Nat) (l : Lowered) : Prop := ∀ e ∈ l.nested.flatten, e.Consistent el
 
 /-! ## the property at full strength -/
 
-/-- Full statement for the layout-aware path (`TransformDMA`), over all memref types, layouts and run-time
-descriptors on which the pass emits code. FALSE of the code as it is: see the `_fails` theorems. -/
+/-- Full statement for the layout-aware path (`TransformDMA`, with fix F21), over all memref types, layouts and
+run-time descriptors on which the pass emits code; the pointers are the descriptor's aligned pointers plus element size
+times the layout's offset. FALSE of the code as it is (D32, D40): see the `_fails` theorems. -/
 def C05_statement : Prop :=
-  ∀ (src dst : MemTy) (rs rd : Rt) (l : Lowered), transformDma src dst rs rd = .ok l →
-    EqualTileBounds l → ResolutionConsistent src.el l →
-    l.prog.moves ~ expectedMoves src.el l.prog.sbase l.prog.dbase rs.shape l.nested
+  ∀ (src dst : MemTy) (rs rd : Rt) (l : Lowered), transformDma false src dst rs rd = .ok l →
+    EqualTileBounds l →
+    l.prog.moves ~ expectedMoves src.el (rs.base + src.el * layoutOffset src rs) (rd.base + src.el * layoutOffset dst rd)
+      rs.shape l.nested
 
 /-! ## theorems -/
 
@@ -69,18 +70,84 @@ theorem lcb_one_burst (el : Nat) (flat mem : List Entry) (h : lcbMembers flat = 
 permutation of a loop nest visits the same offsets. -/
 theorem loop_order_irrelevant {l1 l2 : List (Nat × Nat × Nat)} (h : l1 ~ l2) : offs l1 ~ offs l2 := offs_perm h
 
-/-- C05 for `TransformDMA`, all ranks / depths / shapes / widths / offsets / static and dynamic entries:
+/-- Steps 6.2/6.3 for EVERY number of loops: the nest assembled by the code's index arithmetic (innermost loop to
+`upper[-1]`, wrapped by `upper[n-2-i]`, the `i`-th loop from outside advancing by `remaining_strides_list[i]`) is the
+list of remaining strides in order, each with its own trip count and steps. -/
+theorem loop_nest_faithful (rest : List Entry) : buildLoops rest = rest.map Entry.triple := buildLoops_eq rest
+
+/-- `ResolutionConsistent` holds for EVERY result of `TransformDMA` (every rank, depth, static or dynamic entry,
+descriptor): wherever a step or bound is static in the (reconstructed) layout, the value the emitted `get_bound_ops` /
+`get_step_ops` ops compute at run time is that bound, resp. that step × element size. (Was an assumed clause.) -/
+theorem resolution_consistent (bv : Bool) (src dst : MemTy) (rs rd : Rt) (l : Lowered)
+    (h : transformDma bv src dst rs rd = .ok l) : ResolutionConsistent src.el l :=
+  transformDma_consistent h
+
+/-- byte/element scaling of the offsets: the pointers handed to the DMA calls start at the descriptor's aligned
+pointer plus element size × the layout's offset (static, or the descriptor's for `offset: ?`), on both sides. -/
+theorem C05_bases (bv : Bool) (src dst : MemTy) (rs rd : Rt) (l : Lowered) (h : transformDma bv src dst rs rd = .ok l) :
+    l.prog.sbase = rs.base + src.el * layoutOffset src rs ∧ l.prog.dbase = rd.base + src.el * layoutOffset dst rd :=
+  transformDma_bases h
+
+/-- C05 for `TransformDMA` WITH fix F21, all ranks / depths / shapes / widths / offsets / static and dynamic entries:
 the emitted transfers are a permutation of the layout-defined element moves. PARTIAL: clauses `TileDividesShape`
-(D32), `LcbStepsStatic` (D40), `ByValueDistinct` (D41) exclude the three defects of the unchanged tree. -/
+(D32) and `LcbStepsStatic` (D40) exclude the two open defects; `ResolutionConsistent` and `ByValueDistinct` are gone
+(proved, resp. removed by the fix). -/
 theorem C05_moves_partial (src dst : MemTy) (rs rd : Rt) (l : Lowered)
-    (h : transformDma src dst rs rd = .ok l)
-    (_hETB : EqualTileBounds l) (hRC : ResolutionConsistent src.el l)
-    (hTD : TileDividesShape rs l) (hLS : LcbStepsStatic l) (hBV : ByValueDistinctC l) :
+    (h : transformDma false src dst rs rd = .ok l)
+    (_hETB : EqualTileBounds l) (hTD : TileDividesShape rs l) (hLS : LcbStepsStatic l) :
     l.prog.moves ~ expectedMoves src.el l.prog.sbase l.prog.dbase rs.shape l.nested := by
   have h' := transformDma_inv h
   unfold TileDividesShape at hTD
   rw [hTD] at h' ⊢
-  exact lowerResolved_moves src.el _ _ l.nested l.lcb l.prog h' hLS hBV (fun e he => consistentB_sound (hRC e he))
+  exact lowerResolved_moves src.el _ _ l.nested l.lcb l.prog h' hLS (transformDma_consistent h)
+
+/-- the same with the pointers spelled out from the descriptors and the layouts' offsets -/
+theorem C05_moves_abs_partial (src dst : MemTy) (rs rd : Rt) (l : Lowered)
+    (h : transformDma false src dst rs rd = .ok l)
+    (hETB : EqualTileBounds l) (hTD : TileDividesShape rs l) (hLS : LcbStepsStatic l) :
+    l.prog.moves ~ expectedMoves src.el (rs.base + src.el * layoutOffset src rs) (rd.base + src.el * layoutOffset dst rd)
+      rs.shape l.nested := by
+  have := C05_moves_partial src dst rs rd l h hETB hTD hLS
+  rwa [(transformDma_bases h).1, (transformDma_bases h).2] at this
+
+/-- C05 for `TransformDMA` BEFORE fix F21 (by-value membership): additionally needs `ByValueDistinct` (D41). -/
+theorem C05_moves_byValue_partial (src dst : MemTy) (rs rd : Rt) (l : Lowered)
+    (h : transformDma true src dst rs rd = .ok l)
+    (_hETB : EqualTileBounds l) (hTD : TileDividesShape rs l) (hLS : LcbStepsStatic l) (hBV : ByValueDistinctC l) :
+    l.prog.moves ~ expectedMoves src.el l.prog.sbase l.prog.dbase rs.shape l.nested := by
+  have h' := transformDma_inv h
+  unfold TileDividesShape at hTD
+  rw [hTD] at h' ⊢
+  exact lowerResolved_moves_byValue src.el _ _ l.nested l.lcb l.prog h' hLS hBV (transformDma_consistent h)
+
+/-- The entries over which `expectedMoves` is stated are, position by position, the strides of the source layout and
+of the destination layout (for TSL operands: the attribute itself). -/
+theorem entries_are_layout_strides (bv : Bool) (src dst : MemTy) (rs rd : Rt) (l : Lowered)
+    (h : transformDma bv src dst rs rd = .ok l) :
+    l.nested.map (·.map (·.ss)) = l.tS.ts ∧ l.nested.map (·.map (·.ds)) = l.tD.ts :=
+  resolve_strides (transformDma_resolve h).1
+
+/-- TSL reconstruction, SOURCE: for a `strided<…>` or default-layout source, a dimension with static non-zero stride
+`s` and static non-zero inner tile bounds (any outer bound, static or `?`, any tiling depth) is addressed at
+`x · s · el` bytes by the resolved entries — exactly what the memref's own layout says. -/
+theorem strided_source_address (bv : Bool) (src dst : MemTy) (rs rd : Rt) (l : Lowered)
+    (h : transformDma bv src dst rs rd = .ok l) (hnt : ∀ t, src.layout ≠ .tsl t)
+    (strides : List (Option Nat)) (hstr : extractStrides src = some strides)
+    (d s : Nat) (hs : strides[d]? = some (some s)) (hs0 : s ≠ 0)
+    (es : List Entry) (hd : l.nested[d]? = some es)
+    (b0 : Option Nat) (bs : List Nat) (htb : es.map (·.ss.bound) = b0 :: bs.map some) (hbs : ∀ b ∈ bs, b ≠ 0) (x : Nat) :
+    (tileAddr es x).1 = x * (s * src.el) :=
+  Dma.strided_source_address h hnt hstr hs hs0 hd htb hbs x
+
+/-- TSL reconstruction, DESTINATION (under `EqualTileBounds`). -/
+theorem strided_dest_address (bv : Bool) (src dst : MemTy) (rs rd : Rt) (l : Lowered)
+    (h : transformDma bv src dst rs rd = .ok l) (hnt : ∀ t, dst.layout ≠ .tsl t) (hETB : EqualTileBounds l)
+    (strides : List (Option Nat)) (hstr : extractStrides dst = some strides)
+    (d s : Nat) (hs : strides[d]? = some (some s)) (hs0 : s ≠ 0)
+    (es : List Entry) (hd : l.nested[d]? = some es)
+    (b0 : Option Nat) (bs : List Nat) (htb : es.map (·.ss.bound) = b0 :: bs.map some) (hbs : ∀ b ∈ bs, b ≠ 0) (x : Nat) :
+    (tileAddr es x).2 = x * (s * src.el) :=
+  Dma.strided_dest_address h hnt hETB hstr hs hs0 hd htb hbs x
 
 /-- C05 for `MatchSimpleCopy` (both layouts absent, any rank, static or dynamic shape, any width): the single 1-D
 transfer performs exactly the row-major element moves, in order. FULL. -/
@@ -91,14 +158,23 @@ theorem simpleCopy_moves (src dst : MemTy) (rs rd : Rt) (p : DmaProg) (h : simpl
   rw [he, offs_dense _ (rowMajor_dense _ _), rowMajor_prodT]
   unfold simpleCopy at h
   split at h
-  · split at h
-    · simp at h
-    · injection h with h; subst h
-      rw [moves_oneD]; rfl
   · simp at h
+  · split at h
+    · split at h
+      · simp at h
+      · injection h with h; subst h
+        rw [moves_oneD]; rfl
+    · simp at h
 
-/-- Under `NoSelfOverlap`-style distinctness the by-value test `stride not in lcb` only ever drops loops of trip
-count 1 besides the block's own members (DESIGN: `byValue_drop_harmless`). -/
+/-- With fix F21 (membership by position) only the block's own members and loops of trip count 1 are dropped, for
+EVERY layout pair (no distinctness assumption). -/
+theorem byKey_drop_harmless (el : Nat) (flat : List Entry) (mr : List Entry × List Entry) (hs : lcbSplit flat = .ok mr)
+    (hk : ∀ e ∈ flat, e.Consistent el) :
+    ∃ U R, flat ~ U ++ (R ++ mr.1.reverse) ∧ (∀ u ∈ U, u.bound = 1) ∧ remainingByKey (lcbOfMembers mr.1) mr.2 ~ R :=
+  byKey_split el hs hk
+
+/-- Before the fix: under `NoSelfOverlap`-style distinctness the by-value test `stride not in lcb` only ever drops
+loops of trip count 1 besides the block's own members (DESIGN: `byValue_drop_harmless`). -/
 theorem byValue_drop_harmless (el : Nat) (flat mem : List Entry) (hm : lcbMembers flat = .ok mem)
     (hk : ∀ e ∈ flat, e.consistentB el = true) (hs : ∀ m ∈ mem, m.ss.step ≠ none) (hbv : ByValueDistinct flat) :
     ∃ U R, flat ~ U ++ (R ++ mem.reverse) ∧ (∀ u ∈ U, u.bound = 1) ∧ remaining (lcbOfMembers mem) flat ~ R :=
@@ -107,8 +183,8 @@ theorem byValue_drop_harmless (el : Nat) (flat mem : List Entry) (hm : lcbMember
 /-! ## the dropped clauses are necessary: counterexamples in the model (replayed on the real code by the harness) -/
 
 /-- Bool evaluation of "the clauses other than the named ones hold and the conclusion holds" on a concrete input. -/
-def check (src dst : MemTy) (rs rd : Rt) (needTD needLS needBV : Bool) : Option Bool :=
-  match transformDma src dst rs rd with
+def check (bv : Bool) (src dst : MemTy) (rs rd : Rt) (needTD needLS needBV : Bool) : Option Bool :=
+  match transformDma bv src dst rs rd with
   | .ok l =>
     if decide (l.tS.tileBounds = l.tD.tileBounds) && l.nested.flatten.all (·.consistentB src.el)
         && (!needTD || decide (rs.shape = l.nested.map prodB))
@@ -123,33 +199,41 @@ def i32 (shape : List (Option Nat)) (lay : Layout) : MemTy := ⟨shape, 4, true,
 /-- D32: `memref<?xi32, #tsl.tsl<[?, 2] -> (4, 1)>>` to `strided<[2]>` with run-time extent 5: the bound `5 / 2`
 floors to 2 and element 4 is never copied (all other clauses hold). -/
 theorem C05_tileDividesShape_fails :
-    check (i32 [none] (.tsl ⟨[[⟨some 4, none⟩, ⟨some 1, some 2⟩]], some 0⟩)) (i32 [none] (.strided [some 2] (some 0)))
+    check false (i32 [none] (.tsl ⟨[[⟨some 4, none⟩, ⟨some 1, some 2⟩]], some 0⟩)) (i32 [none] (.strided [some 2] (some 0)))
       ⟨1000, [5], [], 0⟩ ⟨5000, [5], [2], 0⟩ false true true = some false := by decide +kernel
 
 /-- D40: `memref<?x?xi32, strided<[?, 1]>>` on both sides (an upstream filecheck input) with run-time row strides 3
 and 2 for a 2x2 copy: the dynamic stride `?` matches `None == None`, joins the block and ONE 1-D transfer of 16 bytes
 is emitted. -/
 theorem C05_lcbStepsStatic_fails :
-    check (i32 [none, none] (.strided [none, some 1] (some 0))) (i32 [none, none] (.strided [none, some 1] (some 0)))
+    check false (i32 [none, none] (.strided [none, some 1] (some 0)))
+      (i32 [none, none] (.strided [none, some 1] (some 0)))
       ⟨1000, [2, 2], [3, 1], 0⟩ ⟨5000, [2, 2], [2, 1], 0⟩ true false true = some false := by decide +kernel
 
-/-- D41: `memref<2x2xi32, strided<[1, 1]>>` (equal steps in different dimensions) to `strided<[1, 2]>`: the second
-source stride equals the block member `2 -> 1` by value, its loop is dropped and a 1-D transfer is emitted. -/
+/-- D41 (code BEFORE fix F21): `memref<2x2xi32, strided<[1, 1]>>` (equal steps in different dimensions) to
+`strided<[1, 2]>`: the second source stride equals the block member `2 -> 1` by value, its loop is dropped and a 1-D
+transfer is emitted. -/
 theorem C05_byValueDistinct_fails :
-    check (i32 [some 2, some 2] (.strided [some 1, some 1] (some 0)))
+    check true (i32 [some 2, some 2] (.strided [some 1, some 1] (some 0)))
       (i32 [some 2, some 2] (.strided [some 1, some 2] (some 0)))
       ⟨1000, [2, 2], [1, 1], 0⟩ ⟨5000, [2, 2], [1, 2], 0⟩ true true false = some false := by decide +kernel
 
-/-- therefore the full statement is false of the code as it is -/
+/-- … and WITH fix F21 the same input is lowered correctly although it violates `ByValueDistinct`. -/
+theorem C05_byValueDistinct_fixed :
+    check false (i32 [some 2, some 2] (.strided [some 1, some 1] (some 0)))
+      (i32 [some 2, some 2] (.strided [some 1, some 2] (some 0)))
+      ⟨1000, [2, 2], [1, 1], 0⟩ ⟨5000, [2, 2], [1, 2], 0⟩ true true false = some true := by decide +kernel
+
+/-- therefore the full statement is false of the code as it is (D40 witness) -/
 theorem C05_statement_fails : ¬ C05_statement := by
   intro hst
-  have hw : transformDma (i32 [some 2, some 2] (.strided [some 1, some 1] (some 0)))
-      (i32 [some 2, some 2] (.strided [some 1, some 2] (some 0)))
-      ⟨1000, [2, 2], [1, 1], 0⟩ ⟨5000, [2, 2], [1, 2], 0⟩ =
-      .ok ⟨⟨[[⟨some 1, some 2⟩], [⟨some 1, some 2⟩]], some 0⟩, ⟨[[⟨some 1, some 2⟩], [⟨some 2, some 2⟩]], some 0⟩,
-        [[⟨⟨some 1, some 2⟩, ⟨some 1, some 2⟩, 2, 4, 4⟩], [⟨⟨some 1, some 2⟩, ⟨some 2, some 2⟩, 2, 4, 8⟩]],
-        [⟨some 1, some 2⟩], ⟨1000, 5000, [], .oneD 16⟩⟩ := by decide +kernel
-  have := hst _ _ _ _ _ hw (by unfold EqualTileBounds; decide) (by unfold ResolutionConsistent; decide)
+  have hw : transformDma false (i32 [none, none] (.strided [none, some 1] (some 0)))
+      (i32 [none, none] (.strided [none, some 1] (some 0)))
+      ⟨1000, [2, 2], [3, 1], 0⟩ ⟨5000, [2, 2], [2, 1], 0⟩ =
+      .ok ⟨⟨[[⟨none, none⟩], [⟨some 1, none⟩]], some 0⟩, ⟨[[⟨none, none⟩], [⟨some 1, none⟩]], some 0⟩,
+        [[⟨⟨none, none⟩, ⟨none, none⟩, 2, 12, 8⟩], [⟨⟨some 1, none⟩, ⟨some 1, none⟩, 2, 4, 4⟩]],
+        [⟨some 1, none⟩, ⟨none, none⟩], ⟨1000, 5000, [], .oneD 16⟩⟩ := by decide +kernel
+  have := hst _ _ _ _ _ hw (by unfold EqualTileBounds; decide)
   revert this
   decide +kernel
 
@@ -158,16 +242,28 @@ theorem C05_statement_fails : ¬ C05_statement := by
 /-- the upstream 8x8 tiled pair of `copy_to_dma.mlir` meets every clause of `C05_moves_partial` (and yields a loop
 nest around a 2-D transfer) -/
 example :
-    check (i32 [some 8, some 8] (.tsl ⟨[[⟨some 4, some 2⟩, ⟨some 1, some 4⟩], [⟨some 32, some 2⟩, ⟨some 8, some 4⟩]], some 0⟩))
+    check false (i32 [some 8, some 8] (.tsl ⟨[[⟨some 4, some 2⟩, ⟨some 1, some 4⟩], [⟨some 32, some 2⟩, ⟨some 8, some 4⟩]], some 0⟩))
       (i32 [some 8, some 8] (.tsl ⟨[[⟨some 16, some 2⟩, ⟨some 1, some 4⟩], [⟨some 32, some 2⟩, ⟨some 4, some 4⟩]], some 0⟩))
       ⟨1000, [8, 8], [], 0⟩ ⟨5000, [8, 8], [], 0⟩ true true true = some true := by decide +kernel
 
 /-- a dynamic tiled block layout `[?, 2] -> (?, 2), [?, 2] -> (?, 1)` against the default layout, run-time 4x4,
 meets every clause -/
 example :
-    check (i32 [none, none] (.tsl ⟨[[⟨none, none⟩, ⟨some 2, some 2⟩], [⟨none, none⟩, ⟨some 1, some 2⟩]], some 0⟩))
+    check false (i32 [none, none] (.tsl ⟨[[⟨none, none⟩, ⟨some 2, some 2⟩], [⟨none, none⟩, ⟨some 1, some 2⟩]], some 0⟩))
       (i32 [none, none] .none) ⟨1000, [4, 4], [], 0⟩ ⟨5000, [4, 4], [], 0⟩ true true true = some true := by
   decide +kernel
+
+/-- `strided_source_address` / `strided_dest_address`: a default-layout 4x6 source against a destination TSL tiled
+`[2, 2] x [3, 2]`: the reconstructed source TSL of dimension 0 has two depths, and index 3 of it sits at 3·6·4 bytes -/
+example :
+    (match transformDma false (i32 [some 4, some 6] .none)
+        (i32 [some 4, some 6] (.tsl ⟨[[⟨some 12, some 2⟩, ⟨some 2, some 2⟩], [⟨some 4, some 3⟩, ⟨some 1, some 2⟩]], some 0⟩))
+        ⟨1000, [4, 6], [], 0⟩ ⟨5000, [4, 6], [], 0⟩ with
+     | .ok l => (l.nested[0]?.map fun es => (es.length, (tileAddr es 3).1)) == some (2, 72)
+     | .error _ => false) = true := by decide +kernel
+
+/-- `loop_nest_faithful`: four remaining strides -/
+example : wrapLoops [7, 5, 3, 2] = [7, 5, 3, 2] := by decide
 
 /-- `lcb_contiguous` / `lcb_one_burst`: a three-member block is found -/
 example : (lcbMembers [⟨⟨some 4, some 2⟩, ⟨some 4, some 2⟩, 2, 16, 16⟩, ⟨⟨some 1, some 4⟩, ⟨some 1, some 4⟩, 4, 4, 4⟩,
